@@ -199,7 +199,7 @@ def nodup_set(lst):
     return (len(lst) == len(set(lst))), set(lst)
 
 
-def compare(n, adj, bug=None):
+def compare(n, adj, bug=None, only=None):
     """-> dict algorithm -> first mismatch text (only failing algorithms)"""
     g = build(n, adj)
     bad = {}
@@ -210,6 +210,8 @@ def compare(n, adj, bug=None):
 
     def guarded(algo, f):
         from vf.simpharness import time_limit
+        if only is not None and algo != only:
+            return
         try:
             with time_limit(CALL_LIMIT_S):
                 f()
@@ -352,8 +354,8 @@ def run_task(task):
 def replay(w):
     n = w['task_desc']['n']
     adj = set(tuple(e) for e in w['edges'])
-    bad = compare(n, adj)
     ob = w['ob']
+    bad = compare(n, adj, only=ob)
     if ob in bad:
         return True, "graph with nodes 0..%d and edges %s: %s" % (n - 1, sorted(adj), bad[ob])
     return False, "graph %s: %s agrees with its definition" % (sorted(adj), ob)
